@@ -341,7 +341,13 @@ func (d *csDirector) intent(maxBits, blockNo int) (rig.Tx, bool) {
 		} else {
 			maxTok = randMag(rng, maxBits)
 			tag.Bound = "new"
-			if rng.Intn(3) == 0 {
+			emptied := ps.ok && ps.L.Sign() == 0
+			if emptied {
+				// a pool that exists but was emptied: the first deposit mints exactly the standard amount, and the stated
+				// minimum is placed at and just above it most of the time
+				d.run.Count("add-to-an-emptied-pool", 1)
+			}
+			if rng.Intn(3) == 0 || emptied && rng.Intn(4) > 0 {
 				minLiq = std
 				if rng.Intn(2) == 0 {
 					minLiq = new(big.Int).Add(std, bigOne)
